@@ -17,6 +17,8 @@ import (
 	"fmt"
 	"os"
 	"path/filepath"
+	"sort"
+	"strings"
 	"testing"
 	"time"
 
@@ -321,6 +323,64 @@ func exec(run *core.Run, pl interface{}) {
 			return
 		}
 		if mm := storesim.CompareExact(want, obs, storesim.FullRange, "iterators"); mm != nil {
+			// What kind of difference? A point of the range that is missing or
+			// altered, and data the source never held, are losses/corruption.
+			// Points of the source outside the range are the recorded
+			// block-granularity finding.
+			got := map[string]model.Value{}
+			for key, fs := range obs {
+				for f, tvs := range fs {
+					for _, tv := range tvs {
+						got[fmt.Sprintf("%s\x00%s\x00%d", key, f, tv.T)] = tv.V
+					}
+				}
+			}
+			var keys []string
+			for key := range want.Series {
+				keys = append(keys, key)
+			}
+			sort.Strings(keys)
+			for _, key := range keys {
+				s := want.Series[key]
+				var fns []string
+				for f := range s.Fields {
+					fns = append(fns, f)
+				}
+				sort.Strings(fns)
+				for _, f := range fns {
+					var ts []int64
+					for t := range s.Fields[f] {
+						ts = append(ts, t)
+					}
+					sort.Slice(ts, func(i, j int) bool { return ts[i] < ts[j] })
+					for _, t := range ts {
+						v, ok := got[fmt.Sprintf("%s\x00%s\x00%d", key, f, t)]
+						if !ok || !v.Equal(s.Fields[f][t]) {
+							run.Fail("export-misses-point-in-range", "", "ExportShard[%d,%d] -> ImportShard: %s %s @%d = %v lies in the range but the imported copy has %v (present=%v)", p.ExportA, p.ExportB, key, f, t, s.Fields[f][t], v, ok)
+							return
+						}
+					}
+				}
+			}
+			// anything the copy holds inside the range must be the source's
+			// current value (checked above for the points of the range): an
+			// extra point inside the range is data the source does not hold
+			// there (resurrected or stale)
+			for id, v := range got {
+				parts := strings.SplitN(id, "\x00", 3)
+				var t int64
+				fmt.Sscan(parts[2], &t)
+				if t < p.ExportA || t > p.ExportB {
+					continue // outside the range: the recorded block-granularity finding
+				}
+				if s, ok := want.Series[parts[0]]; ok {
+					if _, ok := s.Fields[parts[1]][t]; ok {
+						continue
+					}
+				}
+				run.Fail("export-has-data-the-source-never-held", "", "ExportShard[%d,%d] -> ImportShard: %s %s @%d = %v lies in the range but the source holds no such point", p.ExportA, p.ExportB, parts[0], parts[1], t, v)
+				return
+			}
 			run.Fail("export-differs-from-source-range", "", "ExportShard[%d,%d] -> ImportShard: %s", p.ExportA, p.ExportB, mm.Detail)
 			return
 		}
